@@ -391,6 +391,11 @@ func fuzzy(elems []any, nonTerminals []lex.Token, defaultField string) ([]any, [
 		return elems, nonTerminals, false
 	}
 
+	// the distance has to be a plain number, not an expression that merely prints like one (e.g. +5)
+	if distance.Op != expr.Literal {
+		return elems, nonTerminals, false
+	}
+
 	idistance, err := strconv.Atoi(distance.String())
 	if err != nil {
 		return elems, nonTerminals, false
@@ -433,6 +438,11 @@ func boost(elems []any, nonTerminals []lex.Token, defaultField string) ([]any, [
 
 	power, ok := elems[2].(*expr.Expression)
 	if !ok {
+		return elems, nonTerminals, false
+	}
+
+	// the power has to be a plain number, not an expression that merely prints like one (e.g. +5)
+	if power.Op != expr.Literal {
 		return elems, nonTerminals, false
 	}
 
